@@ -16,6 +16,7 @@ Oracle: the forward-pass sentences of the property, judged against the options t
 import math, random
 from .common import *
 from . import c10 as base
+frac = base.frac        # nan / inf safe
 
 ROLES = ('conv_a', 'conv_b', 'linear', 'input', 'add')
 
@@ -252,11 +253,11 @@ def exec_net(spec):
                     al = m.alpha.detach()
                     Timpl = m.temperature.item()
                     flat = (lambda t: (t.t() if t.dim() == 2 else t).flatten().tolist())
-                    rec['tab'].append((frac(Timpl), [base.z30(a_) for a_ in flat(al)], [base.me30(math.exp(z_)) for z_ in flat(al / Timpl)]))
+                    rec['tab'].append((frac(Timpl), [base.z30(a_) for a_ in flat(al)], [base.me30(base.sexp(z_)) for z_ in flat(al / Timpl)]))
                     nz, margin = [], None
                     if qid in noise and qid in order:
                         zg = (al + noise[qid]) / Timpl
-                        rec['tab'].append((frac(Timpl), [base.z30(a_) + base.z30(n__) for a_, n__ in zip(flat(al), flat(noise[qid]))], [base.me30(math.exp(z_)) for z_ in flat(zg)]))
+                        rec['tab'].append((frac(Timpl), [base.z30(a_) + base.z30(n__) for a_, n__ in zip(flat(al), flat(noise[qid]))], [base.me30(base.sexp(z_)) for z_ in flat(zg)]))
                         nz = cols(noise[qid])
                         zz = zg if zg.dim() == 2 else zg.unsqueeze(1)
                         if zz.shape[0] > 1:
@@ -272,7 +273,7 @@ def exec_net(spec):
                     # oracle against the REQUESTED options
                     r_ = req[qid]
                     want = dict(b, hard=r_['hard'], name='sample_alpha_none' if r_['disabled'] else 'sample_alpha_gs' if r_['gumbel'] else 'sample_alpha_sm')
-                    for key, what in base.oracle_forward('layer', want, st):
+                    for key, what in base.oracle_forward('mps-model', want, st):
                         if not key.startswith('disable-sampling'):
                             key += ':options-requested-through-public-api'
                         res['fails'].append((key, '%s: %s [requested hard=%s gumbel=%s disable_sampling=%s; bound sampler %s, hard_softmax=%s]' % (
@@ -389,7 +390,7 @@ def exec_ckpt(spec):
             Timpl = m.temperature.item()
             al = m.alpha.detach()
             flat = (lambda t: (t.t() if t.dim() == 2 else t).flatten().tolist())
-            rec['tab'].append((frac(Timpl), [base.z30(a_) for a_ in flat(al)], [base.me30(math.exp(z_)) for z_ in flat(al / Timpl)]))
+            rec['tab'].append((frac(Timpl), [base.z30(a_) for a_ in flat(al)], [base.me30(base.sexp(z_)) for z_ in flat(al / Timpl)]))
             rec['mops'].append(['fwd', [], None])
             rec['steps'].append(st)
             if st['theta'] != saved[n_]['theta']:
@@ -401,7 +402,7 @@ def exec_ckpt(spec):
                         n_, [[float(v) for v in c] for c in st['theta']], [[float(v) for v in c] for c in st['alpha']]), nops))
             else:
                 # saved in training mode: the frozen soft / Gumbel coefficients are evaluated in eval mode -> the open disable-sampling finding
-                for key, what in base.oracle_forward('layer', dict(st, name='sample_alpha_none'), st):
+                for key, what in base.oracle_forward('mps-model', dict(st, name='sample_alpha_none'), st):
                     res['fails'].append((key, '%s: %s' % (n_, what), nops))
         if saved_in_eval and not torch.allclose(yA.detach(), yB.detach(), atol=1e-5):
             res['fails'].append(('mps:checkpoint:reloaded-model-computes-different-function', 'outputs of the saved model and of the re-loaded wrapper differ by %.4g' % float((yA - yB).abs().max()), nops))
